@@ -39,7 +39,7 @@ func main() {
 	emit(Event{"op": "Reset", "fresh_process": true, "seed": *seed, "tier": *tier, "prop": *prop})
 	switch cmd {
 	case "gen":
-		genFor(*prop, *tier, *seed)
+		genFor(*prop, *tier, *seed, *arg)
 	case "osproc":
 		runOSProc(*nArg, *langArg, *seed)
 	case "conc":
@@ -69,7 +69,7 @@ func set(names ...string) map[string]bool {
 	return m
 }
 
-func genFor(prop, tier string, seed int64) {
+func genFor(prop, tier string, seed int64, phase string) {
 	q := tier == "quick"
 	switch prop {
 	case "C01":
@@ -124,10 +124,12 @@ func genFor(prop, tier string, seed int64) {
 		runListCover(tier, seed)
 		runListSource()
 	case "C09":
-		runGates(tier, seed)
+		runGates(tier, seed, phase)
 	case "C14":
-		runRobust(tier, seed)
-		runStrings(-300, 300)
+		runRobust(tier, seed, phase)
+		if phase != "extreme" {
+			runStrings(-300, 300)
+		}
 	case "C16":
 		runStrings(-70000, 70000)
 	case "C04":
